@@ -505,9 +505,38 @@ pub fn attached_controls(ctx: &Ctx) -> Report {
         }
         let done_ctrls = gen::gen_resp_controls(rng);
         plan.push((Resp::Done(Res::ok("done")), done_ctrls));
+        // request side of the envelope: typed request controls, critical or not, with or without a value,
+        // as the server's strict decoder reads them
+        let mut req_ctrls: Vec<RawControl> = vec![];
+        let mut want_req: Vec<crate::msg::Ctl> = vec![];
+        for _ in 0..rng.usize(4) {
+            let crit = rng.bool();
+            match rng.below(4) {
+                0 => {
+                    req_ctrls.push(if crit { ManageDsaIt.critical().into() } else { ManageDsaIt.into() });
+                    want_req.push(crate::msg::Ctl { oid: b"2.16.840.1.113730.3.4.2".to_vec(), crit, val: None });
+                }
+                1 => {
+                    req_ctrls.push(if crit { RelaxRules.critical().into() } else { RelaxRules.into() });
+                    want_req.push(crate::msg::Ctl { oid: b"1.3.6.1.4.1.4203.666.5.12".to_vec(), crit, val: None });
+                }
+                2 => {
+                    let val = if rng.bool() { None } else { Some(rng.bytes(rng.clone().usize(5))) };
+                    req_ctrls.push(RawControl { ctype: "1.2.3.4.5.6".into(), crit, val: val.clone() });
+                    want_req.push(crate::msg::Ctl { oid: b"1.2.3.4.5.6".to_vec(), crit, val });
+                }
+                _ => {
+                    req_ctrls.push(ProxyAuth { authzid: "dn:cn=p".into() }.into());
+                    want_req.push(crate::msg::Ctl { oid: b"2.16.840.1.113730.3.4.18".to_vec(), crit: true, val: Some(b"dn:cn=p".to_vec()) });
+                }
+            }
+        }
         let rt = runtime(rng.next());
         let plan2 = plan.clone();
         let mut erng = rng.fork();
+        let seen_req: std::sync::Arc<std::sync::Mutex<Option<Option<Vec<crate::msg::Ctl>>>>> = Default::default();
+        let seen2 = seen_req.clone();
+        let req_ctrls2 = req_ctrls.clone();
         let (items, fin, note) = rt.block_on(async move {
             let c = connect();
             let mut ldap = c.ldap;
@@ -515,6 +544,7 @@ pub fn attached_controls(ctx: &Ctx) -> Report {
             let srv = tokio::spawn(async move {
                 if let Some(w) = server.request().await {
                     if let Ok(m) = w.msg {
+                        *seen2.lock().unwrap() = Some(m.controls.clone());
                         for (r, cs) in &plan2 {
                             let node = resp_node(m.id, r, cs.as_deref());
                             server.send(&Enc::random(&mut erng).to_vec(&node));
@@ -526,6 +556,9 @@ pub fn attached_controls(ctx: &Ctx) -> Report {
             let mut items = vec![];
             let mut fin = None;
             let mut note = String::new();
+            if !req_ctrls2.is_empty() {
+                ldap.with_controls(req_ctrls2);
+            }
             match ldap.streaming_search("dc=x", ldap3::Scope::Subtree, "(a=b)", vec!["*"]).await {
                 Ok(mut st) => {
                     loop {
@@ -552,6 +585,20 @@ pub fn attached_controls(ctx: &Ctx) -> Report {
             (items, fin, note)
         });
         let replay = json!({"lane":"attached_controls","case":i});
+        match seen_req.lock().unwrap().clone() {
+            Some(got) => {
+                let want = if want_req.is_empty() { None } else { Some(want_req.clone()) };
+                if got != want {
+                    let aspect = match (&got, &want) {
+                        (Some(g), Some(w)) if g.len() == w.len() && g.iter().zip(w).all(|(a, b)| a.oid == b.oid && a.val == b.val) => "request-control:criticality",
+                        _ => "request-control:fields",
+                    };
+                    viol(rep, "attached-controls", aspect, format!("the server read {:?}, the caller attached {:?}", got, want).chars().take(600).collect(), &replay);
+                }
+                rep.count("request_control_lists_checked", 1);
+            }
+            None => viol(rep, "attached-controls", "request-not-seen", String::new(), &replay),
+        }
         if !note.is_empty() {
             viol(rep, "attached-controls", "search-failed", note, &replay);
         }
